@@ -122,6 +122,7 @@ impl Prop for C01 {
             2 => (arb_d(), arb_int_full()).prop_map(|(x, i)| Case { x, y: Rhs::IntR(i) }),
             2 => (arb_d(), arb_int_full()).prop_map(|(x, i)| Case { x, y: Rhs::IntL(i) }),
             2 => arb_related_pair().prop_map(|(x, y)| Case { x, y: Rhs::Dec(y) }),
+            2 => arb_unit_pair().prop_map(|(x, y)| Case { x, y: Rhs::Dec(y) }),
             2 => (arb_word_pair(), arb_word_int(), 0u8..3).prop_map(|((x, y), i, k)| {
                 let y = match k { 0 => Rhs::Dec(y), 1 => Rhs::IntR(i), _ => Rhs::IntL(i) };
                 Case { x, y }
